@@ -88,6 +88,18 @@ CHECKS = {
               "reconstruction error; four listed finding classes are subtracted by predicate."),
         note=TB_COMMON + "The offsets theorem for the header walk is not proved (model compared only); PSNR/NORM derived bounds rely on libm.",
         technique="Coq proof of the parameter-block codec + differential check of SZ_getMetadata + oracle against call arguments"),
+    "C05": dict(
+        category="proof", design_ref="DESIGN.md §4 C05",
+        text=("The process globals (configuration fields of confparams_cpr, its per-call scratch fields, exe_params, dataEndianType, the streams "
+              "produced so far) are a state machine over {compress (explicit arguments / configured defaults / SZ1.4 entry), decompress, metadata "
+              "query, finalise+re-initialise}; proved by induction over arbitrary histories, without axioms: everything a compression can read "
+              "after its own writes equals what it reads in a freshly initialised library, hence so does any stream and reconstruction computed "
+              "from it; the configuration and the configured default bounds are unchanged by every history. The three pre-repair behaviours are "
+              "refuted statements with witness histories. The effect table is tied to the source on every run by extracted facts (which functions "
+              "write which global, unconditional re-derivation, restores on every return) and by running random histories in the implementation: "
+              "globals after every operation vs. the model, and the observed pair's stream and reconstruction vs. a fresh process."),
+        note=TB_COMMON + "That the model's `view` is everything the kernels read is checked by stream equality on explored histories, not derived from the C source. Time-step globals (sz_tsc) are C17's subject.",
+        technique="Coq proof (invariant by induction over operation histories) + source-fact obligations + history differential against a fresh process"),
     "C04": dict(
         category="proof", design_ref="DESIGN.md §4 C04",
         text=("Proved: every byte of the parameter block (shared by all stream kinds) is assigned for every bound mode the writer handles, and its "
